@@ -65,7 +65,16 @@ def run(pid, tier, seed, replay=None):
     rbxv(["bin-cases", "--mode", "defaults"], stdout_path=trace)
     if quick:
         lines = open(trace).readlines()
-        keep = [l for i, l in enumerate(lines) if (i + seed) % 4 == 0]
+        # a seed-rotated quarter of the classes, plus every class that brings a (property name, default value) pair
+        # no class kept so far has: each distinct default of the database is written and read on every run
+        pairs = [{json.dumps(p[:2]) for inst in json.loads(l)["before"]["inst"] for p in inst["props"]} for l in lines]
+        chosen = {i for i in range(len(lines)) if (i + seed) % 4 == 0}
+        seen = set().union(*[pairs[i] for i in chosen]) if chosen else set()
+        for i in range(len(lines)):
+            if i not in chosen and pairs[i] - seen:
+                chosen.add(i)
+                seen |= pairs[i]
+        keep = [l for i, l in enumerate(lines) if i in chosen]
         open(trace, "w").writelines(keep)
     n, fails = validate_cases("BinaryFormatTrace", trace, env)
     total += n
@@ -111,7 +120,7 @@ def run(pid, tier, seed, replay=None):
            "evaluations": expected + total, "distinct_nontrivial": expected,
            "rule": "every class / descriptor / default / enum of the exported database is one TLC state (exhaustive); closure: "
                    "each class populated with its full default set and every serializable descriptor as a one-property instance "
-                   "(quick tier: a seed-rotated quarter / third) written and read by rbx_binary and judged by BinaryFormat.tla",
+                   "(quick tier: a seed-rotated quarter of the classes plus every class that adds a (property, default value) pair not yet covered, so every distinct default is exercised; a third of the descriptor cases) written and read by rbx_binary and judged by BinaryFormat.tla",
            "explanation": "the database is exported from the working tree on every run, so a regenerated database is checked as it is"}
     write_evidence(pid, tier, seed, "model_checking", cov, time.time() - t0, len(rep.violations),
                    ["export goes through the public rbx_reflection types", "XML closure is exercised by the C02/C06 checks"])
@@ -133,6 +142,15 @@ def closure_report(rep, fails):
                 pass
             dups = sorted({n for n in names if names.count(n) > 1})
             issues = [[0, "", d, "duplicate-prop-chunk"] for d in dups] or [[0, "", "", "structure"]]
+        if not issues:
+            # a clause that failed as a whole (the writer or the reader refused the case): name the class of the case
+            ev = find_event(c["part"], c["ep"])
+            cls = ""
+            try:
+                cls = ev["before"]["inst"][0]["class"]
+            except Exception:
+                pass
+            issues = [[0, cls, "", "refused"]]
         for k, cls, prop, what in issues:
             base = c["clause"].split("-")[0]
             rep.violation("closure|%s|%s.%s|%s" % (base, cls, prop, what),
